@@ -483,6 +483,18 @@ def nelderMead (ftol : Rat) (pp : List Pt) (fuel : Nat) : Option (OutN × List E
     some (r.1, pp.map (fun v => (v, 1)) ++ r.2)
   else none
 
+/-- `minimize(pp, func)` called on an EXISTING object `obj` (whatever earlier runs left in
+    `current_simplex`, `y`, `nfunc`): the member function overwrites `mpts`, `ndim`,
+    `current_simplex`, every `y[i]` (`y.resize(mpts)` then the loop over all `i < mpts`), and
+    resets `nfunc = 0`; `psum` is a local.  Nothing of `obj` survives. -/
+def nelderMeadOn (obj : NM) (ftol : Rat) (pp : List Pt) (fuel : Nat) : Option (OutN × List EvN) :=
+  if wellFormed pp then
+    let ndim := (pp.getD 0 []).length
+    let s0 : NM := { obj with p := pp, y := pp.map f, psum := getPsum rnd ndim pp, nfunc := 0 }
+    let r := nmLoop rnd f ftol ndim fuel s0
+    some (r.1, pp.map (fun v => (v, 1)) ++ r.2)
+  else none
+
 /-- the initial simplex of the `deltas` overload: row 0 the starting point, row `i ≥ 1` the
     starting point with `deltas[i-1]` added to coordinate `i-1` -/
 def simplexOf (start deltas : Pt) : List Pt :=
@@ -501,6 +513,17 @@ def nelderMeadDelta (ftol : Rat) (start : Pt) (delta : Rat) (fuel : Nat) : Optio
   nelderMeadDeltas rnd f ftol start (List.replicate start.length delta) fuel
 
 end NelderMead
+
+/-- a sequence of runs on ONE `Minimization` object: each run has its own objective and simplex;
+    the object state left by a run is handed to the next one -/
+def nmSeqOn (rnd : Rat → Rat) (ftol : Rat) (fuel : Nat) : NM → List ((Pt → Rat) × List Pt) → List (Option (OutN × List EvN))
+  | _, [] => []
+  | obj, (f, pp) :: rest =>
+    let r := nelderMeadOn rnd f obj ftol pp fuel
+    let obj' := match r with
+      | some (.ok _ _ s _, _) => s
+      | _ => obj
+    r :: nmSeqOn rnd ftol fuel obj' rest
 
 /-! ## objective language of the requests (reverse Polish, one rounding per arithmetic op) -/
 
